@@ -2,7 +2,7 @@
 from harness import corpus
 from harness.gen import a10_simplify as S
 
-DRIVERS = []
+DRIVERS = ["drv_c14"]
 RULE = "tbd"
 TRUSTED = []
 ASSUMPTIONS = []
@@ -10,6 +10,7 @@ PROP = "C14"
 
 
 def run(ctx):
+    drv = ctx.driver(DRIVERS[0])
     for c in corpus.load(PROP):
         ctx.count("corpus")
         S.check_case(ctx, PROP, c["case"] if "case" in c else c)
@@ -17,11 +18,11 @@ def run(ctx):
         if ctx.time_left() < 0:
             ctx.notes.append("stopped by the time budget after %d cases" % ctx.evaluations)
             break
-        S.check_case(ctx, PROP, case)
+        S.check_case(ctx, PROP, case, drv, S.tie_case)
 
 
 def replay(ctx, payload):
-    S.check_case(ctx, PROP, payload["case"])
+    S.check_case(ctx, PROP, payload["case"], ctx.driver(DRIVERS[0]), S.tie_case)
 
 
 MANIFEST = dict(level_text="", level_note="", technique="")
